@@ -24,6 +24,18 @@ CHECKS = {
                 text="TLC checks the tree invariant on the modelled index in every state. On the real code after every call: entries reached by recursive listing from the root = live index rows = reference tree, every listing has each child once and nothing else, every listed name stats with matching kind/size, Readdir(n) for n in {0,1,2,3,1000} returns min(n, children)."),
 }
 
+CHECKS.update({
+    "C06": dict(cat="fault_enumeration", design="7/C06", technique="TLA+ invariant C06_Prefix (every cut of every reachable tape) checked by TLC; crash-point enumeration on real tapes: the drive file is cut at byte offsets and rebuilt with recovery.Index",
+                note="a crash is modelled as truncation of the drive file at a byte offset; trusted: TLC, archive/tar scan for region classification",
+                text="TLC checks on the block-level model that for every cut the rebuilt state is the state after the last whole record, except for the one entry whose header survived. Histories generated from the specification are executed, the final tape is cut at every region boundary +-1 byte, mid-region and (thorough) at every byte of small tapes; each cut must rebuild without hang or panic, every entry but the torn one must equal (attributes and content hash) the rebuild at the last record boundary, the torn entry must be old, or carry the new metadata with an error or the right bytes on read, and rebuilds at call boundaries must equal the specification's tree."),
+    "C15": dict(cat="model_checking", design="7/C15", technique="TLA+ spec ReadOnly.tla (two-phase: populate, then read-only calls) checked by TLC: C15_ReadOnly action property, mutators denied, readers agree; its behaviours replayed on readOnly=true and no-write-backend instances with tape hash and index dump before/after every call",
+                note="trusted: TLC, SHA-256 of the drive file, canonical dump of all index rows through a second SQLite connection",
+                text="ReadOnly.tla freezes tape, index and reference after a writable phase; TLC checks that no read-only-phase call changes them, that every mutator answers EPERM and that observers answer as the writable specification. Generated behaviours issue every mutating method, observers and OpenFile with 13 flag combinations followed by write/writeat/writestring/truncate/sync/read against two real read-only constructions (one builds its missing index on first open); tape bytes and index rows must be identical before and after every call, mutators must return a permission error, readers must equal a writable twin over a copy of the data and the specification's content/listing."),
+    "C16": dict(cat="model_checking", design="7/C16", technique="TLA+ STFS.tla histories (TLC-generated) executed, then the filesystem is constructed+initialised over tape variants {intact, torn header/data/trailer} x index variants {absent, current, stale}; tape bytes, view = rebuild, and a write + read-back + rebuild afterwards are checked",
+                note="torn tails = truncation; stale index = copy of the index after an earlier call; torn-tail and stale-index scenarios are known findings K01/K02 (printed as KNOWN-FINDING), intact tapes with absent/current index are checked at full strength",
+                text="For each generated history the drive file (intact or cut) is combined with no index, the current index or a stale copy; NewSTFS+Initialize must not change a byte of a tape that holds a root, a successful open must show exactly the from-scratch rebuild (names, attributes, content), and a directory and file written afterwards must read back and survive a rebuild together with every earlier entry."),
+})
+
 NOT_APPLICABLE = {}
 
 PENDING = {}
